@@ -1,4 +1,5 @@
 import Ktm.Random
+import Ktm.Exact
 /-! C06 / C01 — the search space grows while the search runs.
 
 `end_trial` begins with `old_trial.hyperparameters = trial.hyperparameters; update_space(...)` and, after
@@ -9,12 +10,20 @@ the values the tuner reports, the algorithm records them again) and the request 
 
 * the lifecycle invariant `Inv` is insensitive to the stored values, so C01–C03 hold verbatim for request lists
   that contain `endWith` (`inv_greachable`);
-* for a sampling oracle (`RandomAlg`, tried list) the invariant *every trial's current values are in the tried
-  list* survives every request, including `endWith` with arbitrary reported values; hence a freshly started trial
-  differs from the **current** values of every earlier trial, however the space grew in between
-  (`fresh_differs_from_current`). Pairwise distinctness of the *final* values is not preserved by growth (a
-  trial started as `{x:1}` may end as `{x:1, y:d}` after a later trial was started as `{x:1, y:d}`); the code
-  does not prevent that and the property does not ask for it (nothing is *started* twice). -/
+* `_record_values` as the code has it: the new hash joins `_tried_so_far`; when it differs from the hash recorded
+  for that trial before (`_id_to_hash`) and new entries are tuned, the old hash is *removed*. For a sampling
+  oracle the invariant *every trial's current values are in the tried list, or among the removed (stale) ones*
+  survives every request, including `endWith` with arbitrary reported values; hence a freshly started trial differs
+  from the **current** values of every earlier trial unless it is a stale configuration
+  (`fresh_differs_unless_stale`); with `tune_new_entries = False` nothing is ever removed, the tried list only grows
+  and a fresh trial differs from everything any trial ever held (`fresh_differs_not_tuned`, the repaired defect F21:
+  the code used to remove the old hash in that mode too, and `stale_sampled_again` below is the counter-example on
+  the unrepaired rule); in tuned mode a stale configuration leaves an entry of the grown space unbound that is
+  active under it, and such an assignment is never enumerated/sampled from the grown space
+  (`stale_not_enumerated`, from `enum_exact`).
+  Pairwise distinctness of the *final* values is not preserved by growth (a trial started as `{x:1}` may end as
+  `{x:1, y:d}` after a later trial was started as `{x:1, y:d}`); the code does not prevent that and the property
+  does not ask for it (nothing is *started* twice). -/
 namespace Growth
 open Core
 variable {V A : Type}
@@ -77,12 +86,12 @@ theorem inv_setTrial_same (o : Oracle V A) (id : Nat) (f : Trial V → Trial V) 
   · exact h.not_aborted
 
 /-- the first lines of `end_trial`: the stored trial takes the reported values; `_record_values` again -/
-def syncVals (record : A → V → A) (o : Oracle V A) (id : Nat) (v : V) : Oracle V A :=
+def syncVals (record : A → V → V → A) (o : Oracle V A) (id : Nat) (v : V) : Oracle V A :=
   match o.trials[id]? with
   | none => o
-  | some _ => { o with trials := setTrial o.trials id (fun t => { t with vals := v }), alg := record o.alg v }
+  | some t => { o with trials := setTrial o.trials id (fun t => { t with vals := v }), alg := record o.alg t.vals v }
 
-theorem inv_syncVals (record : A → V → A) (o : Oracle V A) (id : Nat) (v : V) (h : Inv o) :
+theorem inv_syncVals (record : A → V → V → A) (o : Oracle V A) (id : Nat) (v : V) (h : Inv o) :
     Inv (syncVals record o id v) := by
   unfold syncVals
   split
@@ -92,11 +101,11 @@ theorem inv_syncVals (record : A → V → A) (o : Oracle V A) (id : Nat) (v : V
 /-- requests of a search whose tuners may report changed hyperparameters at `end_trial` -/
 inductive GOp (V : Type) | base (op : Op) | endWith (id : Nat) (v : V) (oc : Outcome)
 
-def gstep (alg : Alg V A) (record : A → V → A) (o : Oracle V A) : GOp V → Oracle V A × Out V
+def gstep (alg : Alg V A) (record : A → V → V → A) (o : Oracle V A) : GOp V → Oracle V A × Out V
   | .base op => step alg o op
   | .endWith id v oc => endT alg (syncVals record o id v) id oc
 
-def grun (alg : Alg V A) (record : A → V → A) : Oracle V A → List (GOp V) → Oracle V A
+def grun (alg : Alg V A) (record : A → V → V → A) : Oracle V A → List (GOp V) → Oracle V A
   | o, [] => o
   | o, op :: ops =>
     let r := gstep alg record o op
@@ -104,7 +113,7 @@ def grun (alg : Alg V A) (record : A → V → A) : Oracle V A → List (GOp V) 
     | .abort => r.1
     | _ => grun alg record r.1 ops
 
-theorem inv_gstep (alg : Alg V A) (record : A → V → A) (o : Oracle V A) (op : GOp V) (h : Inv o)
+theorem inv_gstep (alg : Alg V A) (record : A → V → V → A) (o : Oracle V A) (op : GOp V) (h : Inv o)
     (hna : (gstep alg record o op).2 ≠ .abort) : Inv (gstep alg record o op).1 := by
   cases op with
   | base op => exact inv_step alg o op h hna
@@ -112,7 +121,7 @@ theorem inv_gstep (alg : Alg V A) (record : A → V → A) (o : Oracle V A) (op 
 
 /-- C01 for growing spaces: the lifecycle invariant holds in every state reachable by any request list in which
     tuners may report arbitrary new values when they end a trial — or the search was aborted -/
-theorem inv_greachable (alg : Alg V A) (record : A → V → A) (o : Oracle V A) (ops : List (GOp V)) (h : Inv o) :
+theorem inv_greachable (alg : Alg V A) (record : A → V → V → A) (o : Oracle V A) (ops : List (GOp V)) (h : Inv o) :
     Inv (grun alg record o ops) ∨ (grun alg record o ops).aborted = true := by
   induction ops generalizing o with
   | nil => exact Or.inl h
@@ -134,26 +143,48 @@ theorem inv_greachable (alg : Alg V A) (record : A → V → A) (o : Oracle V A)
     | ok => exact ih _ (inv_gstep alg record o op h (by rw [hout]; intro hc; cases hc))
     | bad => exact ih _ (inv_gstep alg record o op h (by rw [hout]; intro hc; cases hc))
 
-/-! ### sampling oracles: the tried list follows the current values -/
+/-! ### sampling oracles: the tried set follows the current values -/
 
 section sampling
 set_option linter.unusedSectionVars false
 variable {W : Type} [DecidableEq W]
 
-/-- `_record_values` of a sampling oracle: the hash of the (new) values joins the tried set -/
-def recordTried (s : RandomAlg.St W) (v : W) : RandomAlg.St W := { s with tried := s.tried ++ [v] }
+/-- tried set of a sampling oracle; `stale` is a ghost field (the hashes `_record_values` removed so far) -/
+structure SSt (W : Type) where
+  tried : List W
+  maxCollisions : Nat
+  stale : List W
 
-/-- every stored trial's *current* values are in the tried list -/
-def Recorded (o : Oracle W (RandomAlg.St W)) : Prop :=
-  ∀ (i : Nat) (t : Trial W), o.trials[i]? = some t → t.vals ∈ o.alg.tried
+def populateS (cands : Nat → List W) (o : Oracle W (SSt W)) (choice : Nat) : SSt W × Pop W :=
+  match RandomAlg.pick o.alg.tried ((cands choice).take (o.alg.maxCollisions + 1)) with
+  | some v => ({ o.alg with tried := o.alg.tried ++ [v] }, .run v)
+  | none => (o.alg, .stop)
 
-/-- a step that keeps every trial's values and only extends the tried list keeps `Recorded` -/
-theorem recorded_of_same (o o' : Oracle W (RandomAlg.St W)) (r : Recorded o)
+def algS (cands : Nat → List W) : Alg W (SSt W) :=
+  { populate := populateS cands, onEnd := fun s _ => s, scoreOf := fun l => l.getLast?.join }
+
+/-- `_record_values` at `end_trial`. `old` = what was recorded for this trial before (`_id_to_hash`), `new` = the
+    reported values. `removeOld` is the condition under which the old hash is dropped when it differs:
+    the repaired code drops it only when new entries are tuned. -/
+def recordS (removeOld : Bool) (s : SSt W) (old new : W) : SSt W :=
+  if removeOld && decide (old ≠ new) then
+    { s with tried := s.tried.filter (fun w => decide (w ≠ old)) ++ [new], stale := s.stale ++ [old] }
+  else { s with tried := s.tried ++ [new] }
+
+/-- every stored trial's *current* values are in the tried set or among the removed ones -/
+def Recorded (o : Oracle W (SSt W)) : Prop :=
+  ∀ (i : Nat) (t : Trial W), o.trials[i]? = some t → t.vals ∈ o.alg.tried ∨ t.vals ∈ o.alg.stale
+
+/-- a step that keeps every trial's values and only extends the tried / stale lists keeps `Recorded` -/
+theorem recorded_of_same (o o' : Oracle W (SSt W)) (r : Recorded o)
     (hv : ∀ (i : Nat) (t' : Trial W), o'.trials[i]? = some t' → ∃ t, o.trials[i]? = some t ∧ t.vals = t'.vals)
-    (ht : ∀ v, v ∈ o.alg.tried → v ∈ o'.alg.tried) : Recorded o' := by
+    (ht : ∀ v, v ∈ o.alg.tried → v ∈ o'.alg.tried) (hs : ∀ v, v ∈ o.alg.stale → v ∈ o'.alg.stale) : Recorded o' := by
   intro i t' h'
   obtain ⟨t, h1, h2⟩ := hv i t' h'
-  rw [← h2]; exact ht _ (r i t h1)
+  rw [← h2]
+  rcases r i t h1 with h | h
+  · exact Or.inl (ht _ h)
+  · exact Or.inr (hs _ h)
 
 theorem setTrial_vals_same (ts : List (Trial W)) (id : Nat) (f : Trial W → Trial W)
     (i : Nat) (t' : Trial W) (h : (setTrial ts id f)[i]? = some t') (hf : ∀ t, (f t).vals = t.vals) :
@@ -165,45 +196,48 @@ theorem setTrial_vals_same (ts : List (Trial W)) (id : Nat) (f : Trial W → Tri
     | some t => simp [hti] at h; subst h; exact ⟨t, rfl, (hf t).symm⟩
   · exact ⟨t', h, rfl⟩
 
-theorem recorded_create (cands : Nat → List W) (o : Oracle W (RandomAlg.St W)) (r : Recorded o) (tuner c : Nat) :
-    Recorded (create (RandomAlg.alg cands) o tuner c).1 := by
+theorem recorded_create (cands : Nat → List W) (o : Oracle W (SSt W)) (r : Recorded o) (tuner c : Nat) :
+    Recorded (create (algS cands) o tuner c).1 := by
   unfold create
   split
   · split <;> exact r
   · simp only
     split
     · split
-      · exact recorded_of_same o _ r (fun i t' h => setTrial_vals_same _ _ _ i t' h (fun _ => rfl)) (fun _ h => h)
-      · exact recorded_of_same o _ r (fun i t' h => ⟨t', h, rfl⟩) (fun _ h => h)
+      · exact recorded_of_same o _ r (fun i t' h => setTrial_vals_same _ _ _ i t' h (fun _ => rfl)) (fun _ h => h) (fun _ h => h)
+      · exact recorded_of_same o _ r (fun i t' h => ⟨t', h, rfl⟩) (fun _ h => h) (fun _ h => h)
     · split
-      · exact recorded_of_same o _ r (fun i t' h => ⟨t', h, rfl⟩) (fun _ h => h)
-      · have hpop : (RandomAlg.alg cands).populate { o with tunerIds := addTuner o.tunerIds tuner } c
-            = RandomAlg.populateWith cands { o with tunerIds := addTuner o.tunerIds tuner } c := rfl
+      · exact recorded_of_same o _ r (fun i t' h => ⟨t', h, rfl⟩) (fun _ h => h) (fun _ h => h)
+      · have hpop : (algS cands).populate { o with tunerIds := addTuner o.tunerIds tuner } c
+            = populateS cands { o with tunerIds := addTuner o.tunerIds tuner } c := rfl
         rw [hpop]
-        unfold RandomAlg.populateWith
+        unfold populateS
         simp only
         cases hp : RandomAlg.pick o.alg.tried ((cands c).take (o.alg.maxCollisions + 1)) with
-        | none => simp only; exact recorded_of_same o _ r (fun i t' h => ⟨t', h, rfl⟩) (fun _ h => h)
+        | none => simp only; exact recorded_of_same o _ r (fun i t' h => ⟨t', h, rfl⟩) (fun _ h => h) (fun _ h => h)
         | some v =>
           simp only
           intro i t ht
           simp only [List.mem_append, List.mem_singleton]
           by_cases hi : i < o.trials.length
-          · rw [List.getElem?_append_left hi] at ht; exact Or.inl (r i t ht)
+          · rw [List.getElem?_append_left hi] at ht
+            rcases r i t ht with h | h
+            · exact Or.inl (Or.inl h)
+            · exact Or.inr h
           · rw [List.getElem?_append_right (by omega)] at ht
             by_cases h0 : i - o.trials.length = 0
-            · simp [h0] at ht; subst ht; exact Or.inr rfl
+            · simp [h0] at ht; subst ht; exact Or.inl (Or.inr rfl)
             · simp [h0] at ht
 
-theorem recorded_update (o : Oracle W (RandomAlg.St W)) (r : Recorded o) (id : Nat) (x : Option Int) :
+theorem recorded_update (o : Oracle W (SSt W)) (r : Recorded o) (id : Nat) (x : Option Int) :
     Recorded (update o id x).1 := by
   unfold update
   split
-  · exact recorded_of_same o _ r (fun i t' h => setTrial_vals_same _ _ _ i t' h (fun _ => rfl)) (fun _ h => h)
+  · exact recorded_of_same o _ r (fun i t' h => setTrial_vals_same _ _ _ i t' h (fun _ => rfl)) (fun _ h => h) (fun _ h => h)
   · exact r
 
-theorem recorded_endT (cands : Nat → List W) (o : Oracle W (RandomAlg.St W)) (r : Recorded o) (id : Nat) (oc : Outcome) :
-    Recorded (endT (RandomAlg.alg cands) o id oc).1 := by
+theorem recorded_endT (cands : Nat → List W) (o : Oracle W (SSt W)) (r : Recorded o) (id : Nat) (oc : Outcome) :
+    Recorded (endT (algS cands) o id oc).1 := by
   unfold endT
   split
   · exact r
@@ -211,58 +245,60 @@ theorem recorded_endT (cands : Nat → List W) (o : Oracle W (RandomAlg.St W)) (
     · exact r
     · simp only
       split
-      · exact recorded_of_same o _ r (fun i t' h => setTrial_vals_same _ _ _ i t' h (fun _ => rfl)) (fun _ h => h)
+      · exact recorded_of_same o _ r (fun i t' h => setTrial_vals_same _ _ _ i t' h (fun _ => rfl)) (fun _ h => h) (fun _ h => h)
       · split
-        · exact recorded_of_same o _ r (fun i t' h => setTrial_vals_same _ _ _ i t' h (fun _ => rfl)) (fun _ h => h)
-        · exact recorded_of_same o _ r (fun i t' h => setTrial_vals_same _ _ _ i t' h (fun _ => rfl)) (fun _ h => h)
+        · exact recorded_of_same o _ r (fun i t' h => setTrial_vals_same _ _ _ i t' h (fun _ => rfl)) (fun _ h => h) (fun _ h => h)
+        · exact recorded_of_same o _ r (fun i t' h => setTrial_vals_same _ _ _ i t' h (fun _ => rfl)) (fun _ h => h) (fun _ h => h)
 
-/-- the reported values replace the stored ones *and* join the tried list -/
-theorem recorded_syncVals (o : Oracle W (RandomAlg.St W)) (r : Recorded o) (id : Nat) (v : W) :
-    Recorded (syncVals recordTried o id v) := by
+/-- the reported values replace the stored ones and join the tried set; whatever is removed becomes stale -/
+theorem recorded_syncVals (removeOld : Bool) (o : Oracle W (SSt W)) (r : Recorded o) (id : Nat) (v : W) :
+    Recorded (syncVals (recordS removeOld) o id v) := by
   unfold syncVals
   split
   · exact r
-  · intro i t' ht'
+  · rename_i t0 _
+    intro i t' ht'
     simp only [getElem?_setTrial] at ht'
-    simp only [recordTried, List.mem_append, List.mem_singleton]
+    have hnew : v ∈ (recordS removeOld o.alg t0.vals v).tried := by
+      unfold recordS; split <;> simp
     split at ht'
     · cases hti : o.trials[i]? with
       | none => simp [hti] at ht'
-      | some t => simp [hti] at ht'; subst ht'; exact Or.inr rfl
-    · exact Or.inl (r i t' ht')
+      | some t => simp [hti] at ht'; subst ht'; exact Or.inl hnew
+    · rcases r i t' ht' with h | h
+      · unfold recordS
+        split
+        · by_cases hw : t'.vals = t0.vals
+          · right; simp [hw]
+          · left; simp [List.mem_filter, h, hw]
+        · left; simp [h]
+      · right
+        unfold recordS
+        split <;> simp [h]
 
-theorem recorded_gstep (cands : Nat → List W) (o : Oracle W (RandomAlg.St W)) (r : Recorded o) (op : GOp W) :
-    Recorded (gstep (RandomAlg.alg cands) recordTried o op).1 := by
+theorem recorded_gstep (removeOld : Bool) (cands : Nat → List W) (o : Oracle W (SSt W)) (r : Recorded o) (op : GOp W) :
+    Recorded (gstep (algS cands) (recordS removeOld) o op).1 := by
   cases op with
   | base op =>
     cases op with
     | create t c => exact recorded_create cands o r t c
     | update id x => exact recorded_update o r id x
     | endT id oc => exact recorded_endT cands o r id oc
-  | endWith id v oc => exact recorded_endT cands _ (recorded_syncVals o r id v) id oc
+  | endWith id v oc => exact recorded_endT cands _ (recorded_syncVals removeOld o r id v) id oc
 
-theorem recorded_greachable (cands : Nat → List W) (o : Oracle W (RandomAlg.St W)) (r : Recorded o) (ops : List (GOp W)) :
-    Recorded (grun (RandomAlg.alg cands) recordTried o ops) := by
+theorem recorded_greachable (removeOld : Bool) (cands : Nat → List W) (o : Oracle W (SSt W)) (r : Recorded o) (ops : List (GOp W)) :
+    Recorded (grun (algS cands) (recordS removeOld) o ops) := by
   induction ops generalizing o with
   | nil => exact r
   | cons op ops ih =>
     simp only [grun]
     split
-    · exact recorded_gstep cands o r op
-    · exact ih _ (recorded_gstep cands o r op)
+    · exact recorded_gstep removeOld cands o r op
+    · exact ih _ (recorded_gstep removeOld cands o r op)
 
-/-- **C06 incl. growth**: in every state reachable by any request list — tuners reporting arbitrary new values
-    when ending trials — a freshly started trial differs from the current values of every stored trial -/
-theorem fresh_differs_from_current (cands : Nat → List W) (o0 : Oracle W (RandomAlg.St W)) (r0 : Recorded o0)
-    (ops : List (GOp W)) (tuner c : Nat) (v : W)
-    (hnew : (create (RandomAlg.alg cands) (grun (RandomAlg.alg cands) recordTried o0 ops) tuner c).2
-              = .trial (grun (RandomAlg.alg cands) recordTried o0 ops).trials.length v) :
-    ∀ (i : Nat) (t : Trial W), (grun (RandomAlg.alg cands) recordTried o0 ops).trials[i]? = some t → t.vals ≠ v := by
-  generalize hgo : grun (RandomAlg.alg cands) recordTried o0 ops = o at hnew ⊢
-  have r : Recorded o := hgo ▸ recorded_greachable cands o0 r0 ops
-  intro i t ht hEq
-  have htried : v ∈ o.alg.tried := hEq ▸ r i t ht
-  -- a fresh id can only come from `populate`, which picks outside the tried list
+/-- a fresh trial's values are outside the tried set -/
+theorem fresh_not_tried (cands : Nat → List W) (o : Oracle W (SSt W)) (tuner c : Nat) (v : W)
+    (hnew : (create (algS cands) o tuner c).2 = .trial o.trials.length v) : v ∉ o.alg.tried := by
   unfold create at hnew
   split at hnew
   · rename_i id hh
@@ -283,30 +319,138 @@ theorem fresh_differs_from_current (cands : Nat → List W) (o0 : Oracle W (Rand
       · cases hnew
     · split at hnew
       · cases hnew
-      · have hpop : (RandomAlg.alg cands).populate { o with tunerIds := addTuner o.tunerIds tuner } c
-            = RandomAlg.populateWith cands { o with tunerIds := addTuner o.tunerIds tuner } c := rfl
+      · have hpop : (algS cands).populate { o with tunerIds := addTuner o.tunerIds tuner } c
+            = populateS cands { o with tunerIds := addTuner o.tunerIds tuner } c := rfl
         rw [hpop] at hnew
-        unfold RandomAlg.populateWith at hnew
+        unfold populateS at hnew
         simp only at hnew
         cases hp : RandomAlg.pick o.alg.tried ((cands c).take (o.alg.maxCollisions + 1)) with
         | none => simp [hp] at hnew
         | some w =>
           simp only [hp, Out.trial.injEq, true_and] at hnew
           subst hnew
-          exact (RandomAlg.pick_spec _ _ _ hp).2 htried
+          exact (RandomAlg.pick_spec _ _ _ hp).2
+
+/-- **C06 incl. growth**: in every state reachable by any request list — tuners reporting arbitrary new values when
+    ending trials, old hashes removed or not — a freshly started trial differs from the current values of every
+    stored trial, unless it is one of the removed (stale) configurations -/
+theorem fresh_differs_unless_stale (removeOld : Bool) (cands : Nat → List W) (o0 : Oracle W (SSt W)) (r0 : Recorded o0)
+    (ops : List (GOp W)) (tuner c : Nat) (v : W)
+    (hnew : (create (algS cands) (grun (algS cands) (recordS removeOld) o0 ops) tuner c).2
+              = .trial (grun (algS cands) (recordS removeOld) o0 ops).trials.length v)
+    (hstale : v ∉ (grun (algS cands) (recordS removeOld) o0 ops).alg.stale) :
+    ∀ (i : Nat) (t : Trial W), (grun (algS cands) (recordS removeOld) o0 ops).trials[i]? = some t → t.vals ≠ v := by
+  generalize hgo : grun (algS cands) (recordS removeOld) o0 ops = o at hnew hstale ⊢
+  have r : Recorded o := hgo ▸ recorded_greachable removeOld cands o0 r0 ops
+  intro i t ht hEq
+  rcases r i t ht with h | h
+  · exact fresh_not_tried cands o tuner c v hnew (hEq ▸ h)
+  · exact hstale (hEq ▸ h)
+
+/-- nothing becomes stale when old hashes are kept (`tune_new_entries = False` on the repaired code) -/
+theorem stale_unchanged_not_tuned (cands : Nat → List W) (o : Oracle W (SSt W)) (ops : List (GOp W)) :
+    (grun (algS cands) (recordS false) o ops).alg.stale = o.alg.stale := by
+  have hstep : ∀ (o : Oracle W (SSt W)) (op : GOp W), (gstep (algS cands) (recordS false) o op).1.alg.stale = o.alg.stale := by
+    intro o op
+    have hend : ∀ (o : Oracle W (SSt W)) (id : Nat) (oc : Outcome), (endT (algS cands) o id oc).1.alg.stale = o.alg.stale := by
+      intro o id oc
+      unfold endT
+      split
+      · rfl
+      · split
+        · rfl
+        · simp only
+          split
+          · rfl
+          · split <;> rfl
+    cases op with
+    | base op =>
+      cases op with
+      | create t c =>
+        simp only [gstep, step]
+        unfold create
+        split
+        · split <;> rfl
+        · simp only
+          split
+          · split <;> rfl
+          · split
+            · rfl
+            · have hpop : (algS cands).populate { o with tunerIds := addTuner o.tunerIds t } c
+                  = populateS cands { o with tunerIds := addTuner o.tunerIds t } c := rfl
+              rw [hpop]
+              unfold populateS
+              simp only
+              cases RandomAlg.pick o.alg.tried ((cands c).take (o.alg.maxCollisions + 1)) <;> rfl
+      | update id x => simp only [gstep, step]; unfold update; split <;> rfl
+      | endT id oc => exact hend o id oc
+    | endWith id v oc =>
+      simp only [gstep]
+      rw [hend]
+      unfold syncVals
+      split
+      · rfl
+      · simp [recordS]
+  induction ops generalizing o with
+  | nil => rfl
+  | cons op ops ih =>
+    simp only [grun]
+    split
+    · exact hstep o op
+    · rw [ih, hstep]
+
+/-- **the not-tuned case (F21 repaired)**: the tried set only grows, so a fresh trial differs from the current
+    values of every stored trial, without any side condition -/
+theorem fresh_differs_not_tuned (cands : Nat → List W) (o0 : Oracle W (SSt W)) (r0 : Recorded o0) (h0 : o0.alg.stale = [])
+    (ops : List (GOp W)) (tuner c : Nat) (v : W)
+    (hnew : (create (algS cands) (grun (algS cands) (recordS false) o0 ops) tuner c).2
+              = .trial (grun (algS cands) (recordS false) o0 ops).trials.length v) :
+    ∀ (i : Nat) (t : Trial W), (grun (algS cands) (recordS false) o0 ops).trials[i]? = some t → t.vals ≠ v :=
+  fresh_differs_unless_stale false cands o0 r0 ops tuner c v hnew
+    (by rw [stale_unchanged_not_tuned, h0]; simp)
 
 end sampling
 
-/-- non-vacuity: trial 0 is started as `1`, ended reporting `10`; candidates `[10, 1, 7]` then yield `7` -/
+/-- **tuned growth**: a stale configuration — one that leaves unbound an entry of the (grown) space that is active
+    under it — is not among the assignments enumerated, hence sampled, from that space -/
+theorem stale_not_enumerated (hs : List GridSucc.GHP) (old : GridSucc.Env) (hnd : (GridSucc.names hs).Nodup)
+    (hpf : GridSucc.ParentsFirst [] hs) (g : GridSucc.GHP) (hg : g ∈ hs) (hact : GridSucc.active old g = true)
+    (hunbound : old.lookup g.name = none) : old ∉ GridSucc.enum hs [] := by
+  intro hmem
+  obtain ⟨v, _, hv⟩ := (GridSucc.enum_exact hs [] old [] (by simp [GridSucc.keys]) (by simpa using hnd) hpf hmem g hg).1 hact
+  rw [hunbound] at hv; cases hv
+
+/-- non-vacuity (tuned): trial 0 is started as `1`, ended reporting `10`: `1` becomes stale, `10` is tried -/
 example :
-    let alg := RandomAlg.alg (fun _ => [10, 1, 7])
-    let o0 : Oracle Nat (RandomAlg.St Nat) := init ⟨[], 5⟩ none 0 3
-    let o1 := (create (RandomAlg.alg (fun _ => [1])) o0 0 0).1
-    let o2 := grun alg recordTried o1 [.base (.update 0 (some 3)), .endWith 0 10 .completed]
-    (match (create alg o2 0 0).2 with | .trial id v => decide (id = 1 ∧ v = 7) | _ => false) = true ∧ o2.alg.tried = [1, 10] ∧
-      (o2.trials.map (·.vals)) = [10] := by
+    let alg := algS (fun _ => [10, 1, 7])
+    let o0 : Oracle Nat (SSt Nat) := init ⟨[], 5, []⟩ none 0 3
+    let o1 := (create (algS (fun _ => [1])) o0 0 0).1
+    let o2 := grun alg (recordS true) o1 [.base (.update 0 (some 3)), .endWith 0 10 .completed]
+    o2.alg.tried = [10] ∧ o2.alg.stale = [1] ∧ (o2.trials.map (·.vals)) = [10] := by
   refine ⟨?_, ?_, ?_⟩ <;> decide
 
+/-- the unrepaired rule (old hash removed although new entries are not tuned): the stale configuration `1` is what
+    the unchanged space yields again — trial 1 starts the configuration trial 0 was started with (defect F21) -/
+theorem stale_sampled_again :
+    let alg := algS (fun _ => [1, 7])
+    let o0 : Oracle Nat (SSt Nat) := init ⟨[], 5, []⟩ none 0 3
+    let o1 := (create alg o0 0 0).1
+    let o2 := grun alg (recordS true) o1 [.base (.update 0 (some 3)), .endWith 0 10 .completed]
+    (match (create alg o1 1 0).2 with | .trial _ v => v | _ => 0) = 7 ∧      -- while trial 0 holds `1`, a fresh trial gets `7`
+    (match (create alg o2 0 0).2 with | .trial _ v => v | _ => 0) = 1 := by   -- after the removal `1` is started again
+  refine ⟨?_, ?_⟩ <;> decide
+
+/-- the repaired rule on the same history: `1` stays tried, the fresh trial gets `7` -/
+example :
+    let alg := algS (fun _ => [1, 7])
+    let o0 : Oracle Nat (SSt Nat) := init ⟨[], 5, []⟩ none 0 3
+    let o1 := (create alg o0 0 0).1
+    let o2 := grun alg (recordS false) o1 [.base (.update 0 (some 3)), .endWith 0 10 .completed]
+    (match (create alg o2 0 0).2 with | .trial _ v => v | _ => 0) = 7 ∧ o2.alg.tried = [1, 10] := by
+  refine ⟨?_, ?_⟩ <;> decide
+
 end Growth
-#print axioms Growth.fresh_differs_from_current
+#print axioms Growth.fresh_differs_unless_stale
+#print axioms Growth.fresh_differs_not_tuned
+#print axioms Growth.stale_not_enumerated
 #print axioms Growth.inv_greachable
